@@ -62,6 +62,27 @@ def filter_empty(args: dict, meta: dict, info: dict):
             logger.debug("removeing empty fields %s", val)
 
 
+def sort_keys(dic: dict) -> dict:
+    """
+    Return a copy of the dictionary with keys in bencode (raw byte) order.
+
+    Parameters
+    ----------
+    dic : dict
+        dictionary with str or bytes keys
+
+    Returns
+    -------
+    dict
+        the sorted dictionary
+    """
+
+    def raw(key):
+        return key.encode("utf-8") if isinstance(key, str) else bytes(key)
+
+    return {key: dic[key] for key in sorted(dic, key=raw)}
+
+
 def edit_torrent(metafile: str, args: dict) -> dict:
     """
     Edit the properties and values in a torrent meta file.
@@ -116,7 +137,10 @@ def edit_torrent(metafile: str, args: dict) -> dict:
         elif isinstance(val, list):
             meta["httpseeds"] = val
 
+    if any(key in args for key in ("comment", "source", "private")):
+        info = sort_keys(info)
     meta["info"] = info
+    meta = sort_keys(meta)
     os.remove(metafile)
     pyben.dump(meta, metafile)
     return meta
